@@ -2,3 +2,4 @@ import SoxrModel.Properties.C12Engine
 #print axioms Soxr.Properties.C12Engine.superposition_runs
 #print axioms Soxr.Properties.C12Engine.homogeneity_runs
 #print axioms Soxr.Properties.C12Engine.sum_ladd
+#print axioms Soxr.Properties.C12Engine.streaming_state
